@@ -23,6 +23,17 @@
            | r <shape> <ph-hex> <value>* a handler of that func type returning these values
     out:  <status> <body-hex> <handlers-started> <panicked 0|1>
 
+  `NEW retnest <method> <outer-inv> <nested-inv> <via>` sessions: while the OUTER request's
+  `func() (int, string)` result is on its way to the response, a NESTED request is served on the
+  same Flame (GET /inner, its own `func() (int, string)` handler).  inv: is | isu (fast paths:
+  built-in teapotInvoker / a user FastInvoker) | isr | cis (reflective).  via: hrt | hgrp (a route /
+  group handler registered a ResponseWriter().Before hook that serves the nested request — it fires
+  inside the table's WriteHeader) | crh (a request-scope ReturnHandler that serves the nested request
+  first and only then reads and echoes the values it was given).  Codes must be 100..999.
+    op:   N <outer-code> <outer-body-hex> <nested-code> <nested-body-hex>
+    out:  <outer-status> <outer-body> <nested-status> <nested-body> <nested-served 0|1> <panicked 0|1>
+  Requests are independent: each response is made of its own handler's values.
+
   value ::= s:<hex> | b:nil | b:<hex> | e:<kind>:<hex> | ep:<kind> | i:<int>
           | p:nil | p:<value> | a:nil | a:<value> | o:<0|1>
 -/
@@ -122,5 +133,35 @@ def seqSession (args : List String) (lines : List (List String)) : List String :
           s!"{st.out.w.status} {st.out.body.toHex} {st.ran} {if st.out.panicked then 1 else 0}" :: go st.app rest
       | _ => "bad-op" :: go app rest
   "new" :: go none lines
+
+/-! ### retnest -/
+
+def invShape (inv : String) (c : Int) (b : Bytes) : RetShape :=
+  if inv == "is" || inv == "isu" then viaTeapot c b else viaReflect c b
+
+/-- the harness's echoing ReturnHandler: `WriteHeader(int(vals[0].Int()))`, then `Write(vals[1].String())`
+    unless empty -/
+def echoHandler : Handler
+  | .two (.int c) (.str b) => [.writeHeader c] ++ (if b.isEmpty then [] else [.write b])
+  | _ => []
+
+def nestSession (args : List String) (lines : List (List String)) : List String :=
+  let head := args.head? == some "HEAD"
+  let oinv := args.getD 1 ""
+  let ninv := args.getD 2 ""
+  let crh := args.getD 3 "" == "crh"
+  let one (l : List String) : String :=
+    match l with
+    | ["N", oc, ob, nc, nb] =>
+      match oc.toInt?, nc.toInt? with
+      | some oc, some nc =>
+        let req : Option Handler := if crh then some echoHandler else none
+        let o := respondFrom { w := Writer.init head } [] req none (invShape oinv oc (hexOf ob))
+        let n := respond false [] (invShape ninv nc (hexOf nb))
+        let served := crh || o.w.written
+        s!"{o.w.status} {o.body.toHex} {n.w.status} {n.body.toHex} {if served then 1 else 0} {if o.panicked || n.panicked then 1 else 0}"
+      | _, _ => "bad-op"
+    | _ => "bad-op"
+  "new" :: lines.map one
 
 end Flamego.Driver.Ret
